@@ -4,6 +4,7 @@ import GoCrypt.Props.C16
 import GoCrypt.Props.C17
 import GoCrypt.Props.KdfIR
 import GoCrypt.Props.ParseFlow
+import GoCrypt.Props.B64IRNoPanic
 
 /-!
 # C05 — no input makes an exported function panic or hang
@@ -51,4 +52,8 @@ namespace GoCrypt.C05
 #print axioms GoCrypt.ParseFlow.parseFlow_never_panics
 #print axioms GoCrypt.ParseFlow.parseFlow_terminates
 #print axioms GoCrypt.ParseFlow.parseFlow_returns
+-- the regenerated base64le loops (Encode/Decode/decodeQuantum bodies from the Go source) never panic: DecodeString on any text, EncodeToString on any bytes
+#print axioms GoCrypt.B64IR.decodeString_ir_never_panics
+#print axioms GoCrypt.B64IR.encodeToString_ir_never_panics
+#print axioms GoCrypt.B64IR.decodeQuantum_ir_eq_model
 end GoCrypt.C05
